@@ -44,6 +44,14 @@ Fixpoint pairs (l : list str) : cfgs :=
   | _ => []
   end.
 
+(* split [a1..an; MARK; b1..bm] at the first element equal to [3] *)
+Fixpoint split_mark (l : list str) : list str * list str :=
+  match l with
+  | [] => ([], [])
+  | x :: r => if str_eqb x [3] then ([], r)
+              else let '(a, b) := split_mark r in (x :: a, b)
+  end.
+
 Definition cmp6 (a b : vec) : str :=
   concat (map bool_str [sv_cmp KLt a b; sv_cmp KLe a b; vec_eqb a b; negb (vec_eqb a b);
                         sv_cmp KGe a b; sv_cmp KGt a b]).
@@ -65,6 +73,39 @@ Definition run (fn : str) (args : list str) : str :=
     | _ => s2l "?" end
   else if str_eqb fn (s2l "sort") then
     join SEP1 (sort_desc args)
+  else if str_eqb fn (s2l "api") || str_eqb fn (s2l "pkgapi") then
+    match args with
+    | [a] => match api a with
+             | ApiOk r => 61 :: r
+             | ApiValueError => s2l "EXC:ValueError"
+             | ApiMesonErr => exc_meson
+             | ApiOutOfModel => s2l "OOM"
+             end
+    | _ => s2l "?" end
+  else if str_eqb fn (s2l "resolve") then
+    (* args: requirement, lock-file versions... -> the version _resolve_package picks *)
+    match args with
+    | r :: vs => match resolve_package r vs with Some v => 86 :: v | None => [45] end
+    | _ => s2l "?" end
+  else if str_eqb fn (s2l "splitcfg") then
+    match args with
+    | [a] => let '(k, v) := split_cfg a in k ++ SEP1 ++ v
+    | _ => s2l "?" end
+  else if str_eqb fn (s2l "getcfg") then
+    (* args: condition, rustc cfg lines..., MARK, rust_args... *)
+    match args with
+    | cond :: rest =>
+        let '(lines, flags) := split_mark rest in
+        match get_cfgs lines flags with
+        | None => s2l "EXC:StopIteration"
+        | Some d =>
+            match eval_cfg cond d with
+            | Ok b => bool_str b
+            | MesonErr => exc_meson
+            | OutOfFuel => s2l "FUEL"
+            end
+        end
+    | _ => s2l "?" end
   else if str_eqb fn (s2l "lex") then
     match args with
     | [a] => match lexer a with Some ts => join SEP1 (map render_ctok ts) | None => exc_meson end
